@@ -38,6 +38,7 @@ import (
 	"os"
 	"os/exec"
 	"path/filepath"
+	"reflect"
 	"runtime"
 	"sort"
 	"strconv"
@@ -48,6 +49,7 @@ import (
 	sdkmath "cosmossdk.io/math"
 	abci "github.com/cometbft/cometbft/abci/types"
 	tmproto "github.com/cometbft/cometbft/proto/tendermint/types"
+	codectypes "github.com/cosmos/cosmos-sdk/codec/types"
 	"github.com/cosmos/cosmos-sdk/store/rootmulti"
 	sdk "github.com/cosmos/cosmos-sdk/types"
 	"github.com/cosmos/cosmos-sdk/x/authz"
@@ -74,6 +76,21 @@ type detMsg struct {
 	mod   string  // module the message belongs to (class of a disagreement)
 	msg   sdk.Msg // the message every replica executes
 	alt   sdk.Msg // the same message with the ticket's all_odds list reversed (nil: no such list)
+	// wire form of msg / alt, fixed at generation time. Every execution decodes its own copy, as a node decodes
+	// the transaction bytes of a block (a handler may write into its message: x/house's Withdraw does)
+	bz, altBz []byte
+}
+
+// fresh decodes a private copy of the message (or of its reversed-list variant).
+func (m *detMsg) fresh(alt bool, reg codectypes.InterfaceRegistry) sdk.Msg {
+	src, bz := m.msg, m.bz
+	if alt && m.alt != nil {
+		src, bz = m.alt, m.altBz
+	}
+	c := reflect.New(reflect.TypeOf(src).Elem()).Interface().(sdk.Msg)
+	must(proto.Unmarshal(bz, c))
+	must(codectypes.UnpackInterfaces(c, reg))
+	return c
 }
 
 type detBlock struct {
@@ -104,7 +121,9 @@ type detMarket struct {
 	uid      string
 	odds     []string
 	resolved bool
+	inactive bool
 	deposits int
+	holders  []int // holders[i] = depositor of participation i+1, as far as the generator can tell
 }
 
 // detAccounts returns the accounts of NewEnv (sorted by bech32 string) without building an app.
@@ -132,6 +151,8 @@ type detGen struct {
 	nCamp   int
 	nRew    int
 	prom    int
+	betMin  int64
+	lastBad bool // the last ticket built by `ticket` is not expected to verify (non-leader key or expired)
 }
 
 // ticket signs claims with oracle key `key`; exp is relative to the time of the block that carries the message.
@@ -140,10 +161,12 @@ func (g *detGen) ticket(key int, claims map[string]interface{}) string {
 	for k, v := range claims {
 		mc[k] = v
 	}
+	g.lastBad = key != 0
 	if _, ok := mc["exp"]; !ok {
 		mc["exp"] = g.now + 1000
-		if g.r.Chance(2) {
+		if g.r.Chance(1) {
 			mc["exp"] = g.now - 1 // expired
+			g.lastBad = true
 		}
 	}
 	mc["iat"] = g.now - 10
@@ -153,19 +176,19 @@ func (g *detGen) ticket(key int, claims map[string]interface{}) string {
 }
 
 func (g *detGen) signKey() int {
-	if g.r.Chance(3) {
+	if g.r.Chance(2) {
 		return 1 + g.r.Intn(3) // registered, but not the leader
 	}
 	return 0
 }
 
 func (g *detGen) kyc(who int) map[string]interface{} {
-	switch g.r.Intn(12) {
+	switch g.r.Intn(40) {
 	case 0:
 		return map[string]interface{}{"ignore": false, "approved": false, "id": g.accts[who].String()}
 	case 1:
 		return map[string]interface{}{"ignore": false, "approved": true, "id": g.accts[(who+1)%NAcct].String()}
-	case 2, 3, 4:
+	case 2, 3, 4, 5, 6, 7, 8, 9:
 		return map[string]interface{}{"ignore": true, "approved": false, "id": ""}
 	default:
 		return map[string]interface{}{"ignore": false, "approved": true, "id": g.accts[who].String()}
@@ -175,7 +198,7 @@ func (g *detGen) kyc(who int) map[string]interface{} {
 func (g *detGen) pickMarket() *detMarket {
 	for try := 0; try < 4; try++ {
 		m := g.markets[g.r.Intn(len(g.markets))]
-		if !m.resolved || g.r.Chance(8) {
+		if (!m.resolved && !m.inactive) || g.r.Chance(6) {
 			return m
 		}
 	}
@@ -209,11 +232,11 @@ func (g *detGen) marketAdd() detMsg {
 	if r.Chance(6) {
 		end = uint64(g.now + r.Range(-5, 40))
 	}
-	status := int(r.Pick([]int64{1, 1, 1, 1, 1, 1, 1, 1, 1, 1, 1, 2, 3}))
+	status := int(r.Pick([]int64{1, 1, 1, 1, 1, 1, 1, 1, 1, 1, 1, 1, 1, 1, 1, 1, 1, 2, 3}))
 	tk := g.ticket(g.signKey(), map[string]interface{}{"uid": UID(clsMarket, mn), "start_ts": start, "end_ts": end, "odds": oddsJ, "status": status, "meta": "m"})
-	if !dup {
+	if !dup && !g.lastBad && status != 3 && int64(end) > g.now && start < end {
 		// optimistic bookkeeping of the generator (it never reads an application)
-		g.markets = append(g.markets, &detMarket{n: mn, uid: UID(clsMarket, mn), odds: oddsU})
+		g.markets = append(g.markets, &detMarket{n: mn, uid: UID(clsMarket, mn), odds: oddsU, inactive: status != 1})
 	}
 	return detMsg{label: "market.add", mod: "market", msg: &markettypes.MsgAdd{Creator: g.accts[0].String(), Ticket: tk}}
 }
@@ -231,8 +254,11 @@ func (g *detGen) marketUpdate() detMsg {
 	m := g.markets[r.Intn(len(g.markets))]
 	start := uint64(g.now - 50 + r.Range(0, 100))
 	end := uint64(g.now + r.Range(300, 3000))
-	status := int(r.Pick([]int64{1, 1, 1, 1, 1, 1, 1, 2, 5}))
+	status := int(r.Pick([]int64{1, 1, 1, 1, 1, 1, 1, 1, 1, 1, 2, 5}))
 	tk := g.ticket(g.signKey(), map[string]interface{}{"uid": m.uid, "start_ts": start, "end_ts": end, "status": status})
+	if !g.lastBad && !m.resolved && status != 5 {
+		m.inactive = status != 1
+	}
 	return detMsg{label: "market.update", mod: "market", msg: &markettypes.MsgUpdate{Creator: g.accts[0].String(), Ticket: tk}}
 }
 
@@ -267,9 +293,9 @@ func (g *detGen) houseDeposit(small bool) []detMsg {
 	if pd != 0 && pd != creator {
 		who = pd
 	}
-	amount := r.Pick([]int64{100, 101, 250, 500, 1000, 2500, 10000, 50000})
+	amount := r.Pick([]int64{100, 101, 250, 500, 1000, 2500, 10000, 50000, 50000})
 	if r.Chance(30) {
-		amount = r.Range(100, 3000)
+		amount = r.Range(100, 8000)
 	}
 	if small {
 		amount = r.Range(2, 40)
@@ -290,7 +316,10 @@ func (g *detGen) houseDeposit(small bool) []detMsg {
 		claims["depositor_address"] = g.accts[pd].String()
 	}
 	tk := g.ticket(g.signKey(), claims)
-	m.deposits++
+	if !g.lastBad && !m.resolved && amount >= 100 {
+		m.deposits++
+		m.holders = append(m.holders, who)
+	}
 	out = append(out, detMsg{label: "house.deposit", mod: "house",
 		msg: &housetypes.MsgDeposit{Creator: g.accts[creator].String(), MarketUID: m.uid, Amount: sdkmath.NewInt(amount), Ticket: tk}})
 	return out
@@ -301,15 +330,19 @@ func (g *detGen) houseWithdraw() detMsg {
 	m := g.pickMarket()
 	creator := 1 + r.Intn(5)
 	idx := uint64(r.Range(1, int64(m.deposits)+1))
-	mode := int(r.Pick([]int64{1, 1, 2, 2, 2, 2, 0}))
+	if len(m.holders) > 0 && r.Chance(85) {
+		i := r.Intn(len(m.holders))
+		idx, creator = uint64(i+1), m.holders[i]
+	}
+	mode := int(r.Pick([]int64{1, 1, 2, 2, 2, 2, 2, 2, 2, 2, 2, 0}))
 	amount := r.Pick([]int64{1, 5, 10, 45, 90, 100, 450, 900, 1000})
 	tk := g.ticket(g.signKey(), map[string]interface{}{"kyc_data": g.kyc(creator)})
 	return detMsg{label: "house.withdraw", mod: "house", msg: &housetypes.MsgWithdraw{Creator: g.accts[creator].String(), MarketUID: m.uid,
 		ParticipationIndex: idx, Mode: housetypes.WithdrawalMode(mode), Amount: sdkmath.NewInt(amount), Ticket: tk}}
 }
 
-var detOddsVals = []string{"1.5", "2", "1.000000000000000731", "3", "7", "25", "1.37", "2.718281828459045235", "1.1", "4.2", "1.01"}
-var detMults = []string{"1", "1", "1", "0.5", "0.1", "0.7", "0.333333333333333333", "0.9", "0.000000000000000001"}
+var detOddsVals = []string{"1.5", "2", "1.000000000000000731", "3", "7", "1.25", "1.37", "2.718281828459045235", "1.1", "4.2", "1.01", "1.5", "1.8"}
+var detMults = []string{"1", "1", "1", "1", "0.5", "0.7", "0.9", "0.333333333333333333", "0.1", "0.8"}
 
 // wagerTickets builds the wager ticket of bettor `who` twice: with the all_odds list in a drawn order, and with
 // the same list reversed. The list has one entry per outcome of the market (rarely one is missing, rarely one
@@ -329,7 +362,7 @@ func (g *detGen) wagerTickets(m *detMarket, who int, small bool) (string, string
 	}
 	mult := detMults[r.Intn(len(detMults))]
 	if r.Chance(2) {
-		mult = []string{"0", "1.5"}[r.Intn(2)]
+		mult = []string{"0", "1.5", "0.000000000000000001"}[r.Intn(3)]
 	}
 	var all []map[string]interface{}
 	for _, o := range m.odds {
@@ -378,12 +411,15 @@ func (g *detGen) ticketFixed(key int, claims map[string]interface{}) string {
 
 func (g *detGen) wagerAmount(small bool) int64 {
 	r := g.r
-	amount := r.Pick([]int64{2, 3, 5, 10, 22, 50, 51, 100, 492, 1000})
+	amount := r.Pick([]int64{2, 3, 5, 10, 22, 50, 51, 100, 492})
 	if r.Chance(40) {
-		amount = r.Range(2, 1500)
+		amount = r.Range(2, 600)
 	}
 	if small {
 		amount = r.Range(2, 60)
+	}
+	if amount < g.betMin && r.Chance(90) {
+		amount = g.betMin + r.Range(0, 40)
 	}
 	if r.Chance(3) {
 		amount = r.Range(0, 2)
@@ -473,7 +509,6 @@ func (g *detGen) subHouseDeposit() detMsg {
 	owner := g.subOwner()
 	amt := r.Pick([]int64{10, 50, 100, 500, 1000})
 	tk := g.ticket(g.signKey(), map[string]interface{}{"kyc_data": g.kyc(owner)})
-	m.deposits++
 	inner := &housetypes.MsgDeposit{Creator: g.accts[owner].String(), MarketUID: m.uid, Amount: sdkmath.NewInt(amt), Ticket: tk}
 	return detMsg{label: "sub.house-deposit", mod: "subaccount", msg: &subtypes.MsgHouseDeposit{Msg: inner}}
 }
@@ -508,14 +543,17 @@ func (g *detGen) ovmVote() detMsg {
 	r := g.r
 	pid := uint64(1)
 	if g.nProps > 0 {
-		pid = uint64(1 + r.Intn(g.nProps))
+		pid = uint64(g.nProps) // mostly the latest proposal (earlier ones are usually decided)
+		if r.Chance(25) {
+			pid = uint64(1 + r.Intn(g.nProps))
+		}
 	}
 	voter := r.Intn(4)
 	signer := voter
 	if r.Chance(10) {
 		signer = r.Intn(detOvmKeys)
 	}
-	vote := int(r.Pick([]int64{2, 2, 2, 2, 1, 1, 0}))
+	vote := int(r.Pick([]int64{2, 2, 2, 2, 2, 2, 1, 1, 1, 0}))
 	tk := g.ticket(signer, map[string]interface{}{"proposal_id": pid, "vote": vote})
 	return detMsg{label: "ovm.vote", mod: "ovm", msg: &ovmtypes.MsgVotePubkeysChangeRequest{Creator: g.accts[1+r.Intn(5)].String(), Ticket: tk, VoterKeyIndex: uint32(voter)}}
 }
@@ -584,7 +622,7 @@ func genDetHistory(seed uint64, h int) *detHist {
 		hd.p.houseMin, hd.p.houseFee, hd.p.obMaxPart, hd.p.betMin = 2, "0", 100, 2
 		hd.p.obRequeue = uint64(r.Pick([]int64{0, 0, 0, 1}))
 	}
-	g.prom = hd.p.promoterOf
+	g.prom, g.betMin = hd.p.promoterOf, hd.p.betMin
 	g.now = BaseTime + 100
 	nBlocks := 6 + r.Intn(9)
 	for b := 0; b < nBlocks; b++ {
@@ -597,10 +635,38 @@ func genDetHistory(seed uint64, h int) *detHist {
 		if r.Chance(8) {
 			nMsgs = 0 // empty block: settlement batches and the mint go on
 		}
+		if b == 0 {
+			// prologue: a market with liquidity, two subaccounts, a reward campaign
+			blk.msgs = append(blk.msgs, g.marketAdd())
+			for len(g.markets) == 0 {
+				blk.msgs = append(blk.msgs, g.marketAdd())
+			}
+			for i, k := 0, 2+r.Intn(3); i < k; i++ {
+				blk.msgs = append(blk.msgs, g.houseDeposit(small)...)
+			}
+			blk.msgs = append(blk.msgs, g.subCreate(), g.subCreate())
+			if r.Chance(60) {
+				blk.msgs = append(blk.msgs, g.campaign())
+			}
+		}
 		for i := 0; i < nMsgs; i++ {
 			c := r.Intn(100)
 			if small && b < 2 && r.Chance(70) && len(g.markets) > 0 {
 				c = 30
+			}
+			live := 0
+			for _, m := range g.markets {
+				if !m.resolved && !m.inactive {
+					live++
+				}
+			}
+			if live == 0 && len(g.markets) < 8 && r.Chance(85) {
+				// every market is resolved or switched off: open a new one and fund it
+				blk.msgs = append(blk.msgs, g.marketAdd())
+				if len(g.markets) > 0 {
+					blk.msgs = append(blk.msgs, g.houseDeposit(small)...)
+				}
+				continue
 			}
 			switch {
 			case len(g.markets) == 0 || (c < 5 && len(g.markets) < 4):
@@ -625,20 +691,49 @@ func genDetHistory(seed uint64, h int) *detHist {
 				blk.msgs = append(blk.msgs, g.subTopUp())
 			case c < 80:
 				blk.msgs = append(blk.msgs, g.subWithdraw())
-			case c < 85:
+			case c < 86:
 				blk.msgs = append(blk.msgs, g.subWager(small))
 			case c < 87:
-				blk.msgs = append(blk.msgs, g.subHouseDeposit())
+				if r.Chance(30) {
+					blk.msgs = append(blk.msgs, g.subHouseDeposit()) // disabled in the message server: error path only
+				} else {
+					blk.msgs = append(blk.msgs, g.grantReward())
+				}
 			case c < 90:
 				blk.msgs = append(blk.msgs, g.ovmPropose())
+				if r.Chance(35) {
+					// a super-majority at once: the end-blocker replaces the vault (RemoveDuplicateStrs, leader first)
+					for v := 0; v < 3; v++ {
+						tk := g.ticket(v, map[string]interface{}{"proposal_id": g.nProps, "vote": 2})
+						blk.msgs = append(blk.msgs, detMsg{label: "ovm.vote", mod: "ovm", msg: &ovmtypes.MsgVotePubkeysChangeRequest{
+							Creator: g.accts[1+r.Intn(5)].String(), Ticket: tk, VoterKeyIndex: uint32(v)}})
+					}
+				}
 			case c < 95:
-				blk.msgs = append(blk.msgs, g.ovmVote())
+				if g.nProps == 0 && r.Chance(90) {
+					blk.msgs = append(blk.msgs, g.ovmPropose())
+				} else {
+					blk.msgs = append(blk.msgs, g.ovmVote())
+				}
 			case c < 97:
 				blk.msgs = append(blk.msgs, g.campaign())
 			case c < 99:
-				blk.msgs = append(blk.msgs, g.grantReward())
+				if g.nCamp == 0 && r.Chance(90) {
+					blk.msgs = append(blk.msgs, g.campaign())
+				} else {
+					blk.msgs = append(blk.msgs, g.grantReward())
+				}
 			default:
 				blk.msgs = append(blk.msgs, g.bankSend())
+			}
+		}
+		for i := range blk.msgs {
+			var err error
+			blk.msgs[i].bz, err = proto.Marshal(blk.msgs[i].msg)
+			must(err)
+			if blk.msgs[i].alt != nil {
+				blk.msgs[i].altBz, err = proto.Marshal(blk.msgs[i].alt)
+				must(err)
 			}
 		}
 		hd.blocks = append(hd.blocks, blk)
@@ -660,6 +755,7 @@ type detRun struct {
 	// statistics of this execution
 	ok, fail map[string]int
 	events   int
+	reach    map[string]int
 }
 
 func (d *detRun) add(kind, mod, format string, a ...interface{}) {
@@ -765,18 +861,21 @@ func execDet(hd *detHist, alt bool) *detRun {
 			d.add("events", "beginblock/"+eventModule(ev), "%s", fmtEvent("B", ev))
 		}
 		ctx := app.NewContext(false, hdr)
-		for i, m := range blk.msgs {
-			msg := m.msg
+		for i := range blk.msgs {
+			m := &blk.msgs[i]
+			msg := m.fresh(alt, app.InterfaceRegistry())
+			bz := m.bz
 			if alt && m.alt != nil {
-				msg = m.alt
+				bz = m.altBz
 			}
-			bz, err := proto.Marshal(msg)
-			must(err)
 			d.add("message", m.mod, "m %d %s %s %s", i, m.label, sdk.MsgTypeURL(msg), short(bz))
 			res, gas, err := deliverDet(app.MsgServiceRouter().Handler(msg), ctx, msg)
 			if err != nil {
 				space, code, _ := sdkerrors.ABCIInfo(err, false)
 				d.fail[m.label]++
+				if detDebug {
+					fmt.Fprintf(os.Stderr, "DET %s: %s\n", m.label, trunc(err.Error(), 200))
+				}
 				d.add("result", m.mod, "r %d err %s %d gas=%d", i, space, code, gas)
 				continue
 			}
@@ -796,6 +895,34 @@ func execDet(hd *detHist, alt bool) *detRun {
 		app.Commit()
 		d.add("apphash", "block", "h %d %s", height, hex.EncodeToString(app.LastCommitID().Hash))
 		d.add("apphash", "block", "hs %d %s", height, storeHashes(e))
+	}
+	// what the history reached (statistics only, read from the committed state)
+	qctx := app.NewContext(true, tmproto.Header{Height: height})
+	d.reach = map[string]int{}
+	if bets, err := app.BetKeeper.GetBets(qctx); err == nil {
+		for _, b := range bets {
+			d.reach["bets"]++
+			if len(b.BetFulfillment) >= 2 {
+				d.reach["bets.split-over-participations"]++
+			}
+			if b.Status == bettypes.Bet_STATUS_SETTLED {
+				d.reach["bets.settled."+b.Result.String()]++
+			}
+		}
+	}
+	if hs, err := app.OrderbookKeeper.GetAllHistoricalParticipationExposures(qctx); err == nil {
+		d.reach["exposures.moved-to-history(requeue)"] = len(hs)
+	}
+	if ps, err := app.OrderbookKeeper.GetAllOrderBookParticipations(qctx); err == nil {
+		for _, p := range ps {
+			d.reach["participations"]++
+			if p.IsSettled {
+				d.reach["participations.settled"]++
+			}
+		}
+	}
+	if kv, ok := app.OVMKeeper.GetKeyVault(qctx); ok && len(kv.PublicKeys) > 0 && kv.PublicKeys[len(kv.PublicKeys)-1] != e.OvmPub[3] {
+		d.reach["ovm.vault-changed"]++
 	}
 	return d
 }
@@ -826,6 +953,8 @@ func deliverDet(h func(ctx sdk.Context, req sdk.Msg) (*sdk.Result, error), ctx s
 	}
 	return
 }
+
+var detDebug = os.Getenv("VERIF_DET_DEBUG") == "1"
 
 var errDetPanic = sdkerrors.Register("verifdet", 2, "panic")
 
@@ -1029,6 +1158,9 @@ func runDeterminism(seed uint64, n int, out *Out) {
 		}
 		for k, v := range d1.fail {
 			out.Stats["msg."+k+".err"] += int64(v)
+		}
+		for k, v := range d1.reach {
+			out.Stats["reach."+k] += int64(v)
 		}
 		// (2) second in-process execution
 		if ia, ib := firstDiff(d1.recs, d2.recs, nil); ia != -2 {
